@@ -759,9 +759,18 @@ def pupil_aberration(ctx):
                     isinstance(t.slice, ast.Constant) and \
                     t.slice.value in ('x', 'y') and isinstance(v, ast.Name):
                 stores[t.slice.value] = (v.id, unparse(t.value))
-    n0 = len(res.failures) if hasattr(res, 'failures') else None
     if stop is None:
         raise AnalysisError('PupilAberration: stop index not found')
+    # the fans are traced for the field of the loop: Hx = field[0],
+    # Hy = field[1]
+    hx, hy = defs.get('Hx'), defs.get('Hy')
+    if hx and hy and hx[0] == 'expr' and hy[0] == 'expr' and \
+            unparse(hx[1]) == 'field[0]' and unparse(hy[1]) == 'field[1]':
+        res.ok('real fans traced at (Hx, Hy) = (field[0], field[1])')
+    else:
+        bad(f.node, 'the real fans are not traced at (Hx, Hy) = (field[0], '
+            'field[1]) of the field the result is stored under',
+            'field coordinates of the fans')
     lin = f'np.linspace(-1, 1, self.num_points)'
     for k in ('Px', 'Py'):
         if samples.get(k) != lin:
@@ -970,4 +979,82 @@ def image_frame(ctx):
     return res
 
 
-RULES = [image_frame, grid_ftheta, pupil_aberration, intensity_used, c03_trace_entry, c03_fields, arg_forward_rule, no_stale, records, arg_names_rule, list_space, record_fresh, operand_attr, parabasal, distortion, radii]
+def operand_spot(ctx):
+    """the spot-size operand recomputes the RMS radius from its own traces:
+    for wavelength 'all' the radii of every wavelength's rays are taken about
+    the centroid of the PRIMARY wavelength (entry primary_index of the lists
+    it filled, which are in the lens's wavelength order); x pairs with x and
+    y with y.  Checked on names and indices, not on the exact text, so that a
+    masked (blocked rays left out) form is accepted as well."""
+    P = ctx.P
+    res = Result('OPERAND-SPOT', "rms_spot_size 'all': centroid of the "
+                 'primary wavelength, radii of all wavelengths about it, '
+                 'x with x and y with y')
+    f = P.func('RayOperand.rms_spot_size')
+    res.saw(f)
+    arm = None
+    for n in ast.walk(f.node):
+        if isinstance(n, ast.If) and "'all'" in unparse(n.test):
+            arm = n
+    if arm is None:
+        raise AnalysisError("rms_spot_size: 'all' arm not found")
+    defs = {}
+    for st in ast.walk(ast.Module(body=arm.body, type_ignores=[])):
+        if isinstance(st, ast.Assign) and isinstance(st.targets[0], ast.Name):
+            defs[st.targets[0].id] = st.value
+    loops = [n for n in arm.body if isinstance(n, ast.For)]
+    ok_loop = bool(loops) and 'get_wavelengths()' in unparse(loops[0].iter)
+    app = {}
+    if loops:
+        wv = unparse(loops[0].target)
+        tr = [c for c in ast.walk(loops[0]) if isinstance(c, ast.Call) and
+              unparse(c.func) == 'optic.trace']
+        ok_loop = ok_loop and tr and len(tr[0].args) >= 3 and \
+            unparse(tr[0].args[2]) == wv
+        for c in ast.walk(loops[0]):
+            if isinstance(c, ast.Call) and isinstance(c.func, ast.Attribute) \
+                    and c.func.attr == 'append' and c.args:
+                rec = [x.attr for x in ast.walk(c.args[0])
+                       if isinstance(x, ast.Attribute) and
+                       x.attr in ('x', 'y') and
+                       unparse(x.value).endswith('surface_group')]
+                app[unparse(c.func.value)] = (rec, 'surface_number' in
+                                              unparse(c.args[0]))
+    ok_rec = app.get('x', ([], False)) == (['x'], True) and \
+        app.get('y', ([], False)) == (['y'], True)
+    idx = [k for k, v in defs.items()
+           if unparse(v) == 'optic.wavelengths.primary_index']
+    ok_cent = False
+    if idx:
+        k = idx[0]
+        mx = [n_ for n_, v in defs.items() if f'x[{k}]' in unparse(v) and
+              f'y[{k}]' not in unparse(v) and 'mean' in unparse(v)]
+        my = [n_ for n_, v in defs.items() if f'y[{k}]' in unparse(v) and
+              f'x[{k}]' not in unparse(v) and 'mean' in unparse(v)]
+        comp = [v for v in defs.values() if isinstance(v, ast.ListComp)]
+        if mx and my and comp:
+            c0 = comp[0]
+            iv = unparse(c0.generators[0].target)
+            el = unparse(c0.elt).replace(' ', '')
+            ok_cent = f'(x[{iv}]' in el and f'(y[{iv}]' in el and \
+                f'-{mx[0]})**2' in el and f'-{my[0]})**2' in el and \
+                el.index(f'(x[{iv}]') < el.index(f'-{mx[0]})') and \
+                unparse(c0.generators[0].iter).replace(' ', '') in (
+                    'range(len(x))', 'range(len(y))')
+    for ok, what in ((ok_loop, 'one trace per wavelength of the lens, in '
+                               'order'),
+                     (ok_rec, 'x list from the x record, y list from the y '
+                              'record of the requested surface'),
+                     (ok_cent, 'radii of every wavelength about the centroid '
+                               'of entry primary_index')):
+        if ok:
+            res.ok('rms_spot_size all: ' + what)
+        else:
+            res.fail(ctx.finding(
+                'OPERAND-SPOT', f, arm,
+                "rms_spot_size(wavelength='all') violates: " + what,
+                construct='rms_spot_size all: ' + what[:40]))
+    return res
+
+
+RULES = [operand_spot, image_frame, grid_ftheta, pupil_aberration, intensity_used, c03_trace_entry, c03_fields, arg_forward_rule, no_stale, records, arg_names_rule, list_space, record_fresh, operand_attr, parabasal, distortion, radii]
